@@ -37,8 +37,12 @@ def main(arg):
             return got, 'exhausted', None
         except BaseException as e:
             return got, 'raised', [type(e).__name__, repr(e.args)]
-        t0 = time.monotonic()
-        it.close()
+        if stop[0] == 'drop':
+            import gc
+            del it
+            gc.collect()
+        else:
+            it.close()
         return got, 'stopped', time.monotonic()
     stop = sc.get('stop') or ['exhaust']
     try:
